@@ -65,6 +65,20 @@ def family_program(ctx, res, args):
     return prog
 
 
+def mixed_program(ctxs, pairs):
+    body = ("v", 0)
+    for c, _ in reversed(pairs):
+        body = ("o", 3, [ctxs[c][0](("v", 0)), body])
+    prog = [("inst", (1, body, []))]
+    cur, n = 0, 1
+    for c, a in pairs:
+        prog.append(("inst", (0, ctxs[c][0](("o", a, [])), [])))
+        prog.append(("apply", cur, n, True))
+        cur = n + 1
+        n += 2
+    return prog
+
+
 def op_le(h, a, b):
     """operator order: Bottom below, Top above, declared ancestors"""
     return a == 1 or b == 0 or b in E.chain_of(h, a)
@@ -123,6 +137,20 @@ def main(tier: str, seed: int, replay: str | None = None) -> int:
                     for perm in sorted(set(itertools.permutations(tup))):
                         progs.append((family_program(ctx, ress[rname], perm), []))
                         ms.append((hi, cname, rname, tuple(sorted(tup)), perm))
+        # mixed contexts: the same variable met in covariant and contravariant
+        # positions by arguments from one chain (lub below, glb above); every
+        # order of the (parameter, argument) pairs must give the same outcome
+        mixed = ["id", "F", "arg", "K"]
+        npairs = 40 if quick else 200
+        for _ in range(npairs):
+            k = rng.randint(2, 3)
+            pairs = [(rng.choice(mixed), rng.choice(pool)) for _ in range(k)]
+            if len({c for c, _ in pairs}) < 2:
+                continue
+            key = tuple(sorted(pairs))
+            for perm in sorted(set(itertools.permutations(pairs))):
+                progs.append((mixed_program(ctxs, perm), []))
+                ms.append((hi, "mixed", "x", key, perm))
         items.append((h, progs))
         meta.append(ms)
 
@@ -139,7 +167,7 @@ def main(tier: str, seed: int, replay: str | None = None) -> int:
         groups.setdefault(m[:4], []).append((m[4], outcome(io), io, prog))
         if len(samples) < 3 and err is None and len(m[4]) == 3 and len(set(m[4])) == 3:
             names = {i: f"op{i}" for i in h.ops}
-            samples.append({"context": m[1], "result": m[2], "args": [names[a] for a in m[4]],
+            samples.append({"context": m[1], "result": m[2], "args": [str(a) for a in m[4]],
                 "program_text": [c if c[0] != "inst" else E.schema_py(c[1], names) for c in prog],
                 "outcome": list(outcome(io))[:2]})
 
@@ -150,19 +178,22 @@ def main(tier: str, seed: int, replay: str | None = None) -> int:
         hi, cname, rname, tup = key
         h = hs[hi]
         names = {i: f"op{i}" for i in h.ops}
-        pol = contexts(h)[cname][1]
+        mixed_group = cname == "mixed"
+        pol = 0 if mixed_group else contexts(h)[cname][1]
         outs = {o for _, o, _, _ in runs}
         if len(runs) > 1:
             nperm_groups += 1
         payload = {"hierarchy": h.to_json(), "context": cname, "result": rname,
-            "args": [names[a] for a in tup],
-            "outcomes": [{"order": [names[a] for a in p], "outcome": list(o)} for p, o, _, _ in runs[:6]],
+            "args": [str(a) for a in tup],
+            "outcomes": [{"order": [str(a) for a in p], "outcome": list(o)} for p, o, _, _ in runs[:6]],
             "program": runs[0][3]}
         if len(outs) > 1:
-            rep.violation(f"perm_{hi}_{cname}_{'_'.join(map(str, tup))}", dict(payload, kind="oracle",
+            rep.violation(f"perm_{hi}_{cname}_{abs(hash(tup)) % 10**8}", dict(payload, kind="oracle",
                 what="outcome depends on the order in which comparable arguments are supplied"))
             continue
         o = next(iter(outs))
+        if mixed_group:
+            continue        # success depends on lub <= glb; only order independence is demanded here
         if o[0] != "ok":
             rep.violation(f"fail_{hi}_{cname}_{'_'.join(map(str, tup))}", dict(payload, kind="oracle",
                 what="application to pairwise comparable arguments failed"))
@@ -199,6 +230,8 @@ def main(tier: str, seed: int, replay: str | None = None) -> int:
     for key, runs in groups.items():
         hi, cname, rname, tup = key
         h = hs[hi]
+        if cname == "mixed":
+            continue
         pol = contexts(h)[cname][1]
         if pol < 0 or runs[0][1][0] != "ok":
             continue
